@@ -1,13 +1,13 @@
 (* what the generated case files import *)
 From Coq Require Export List Bool NArith.
-From PFL Require Export Base.ListSet Spec.Enfa Model.Enfa Model.EnfaOps Model.EnfaWords Proofs.EnfaShapes
-  Oracle.EnfaEquiv Oracle.EnfaMinimal.
+From PFL Require Export Base.ListSet Spec.Enfa Spec.Regex Model.Enfa Model.EnfaOps Model.EnfaWords Model.RegexFA Model.Renumber Proofs.EnfaShapes
+  Oracle.EnfaEquiv Oracle.EnfaMinimal Oracle.ReMatch.
 Export ListNotations.
 #[global] Open Scope N_scope.
 
 Definition FUEL : nat := 40%nat.
 
-Inductive verdict := VEq | VDiff (w : option (list N)) | VFuel.
+Inductive verdict := VEq | VEqBounded (k : nat) | VDiff (w : option (list N)) | VFuel.
 
 Definition judge {Q1 Q2} `{EqDec Q1} `{EqDec Q2} `{Canon Q1} `{Canon Q2} (X : enfa Q1) (R : enfa Q2) : verdict :=
   match enfa_equiv X R FUEL with
@@ -29,3 +29,24 @@ Definition ref_difference (A B : enfa N) :=
   | Some C => intersection A C FUEL
   | None => None
   end.
+
+(* regular expressions returned by the implementation: exact comparison through the proved automaton
+   construction when the expression is small, otherwise agreement of the certified matcher with the certified
+   accepts on every word up to length k over the automaton's labels (bounded: validation only) *)
+Fixpoint re_size (r : re) : nat :=
+  match r with
+  | RCat a b | RAlt a b => S (re_size a + re_size b)
+  | RStar a => S (re_size a)
+  | _ => 1%nat
+  end.
+Fixpoint words_upto (syms : list N) (k : nat) : list (list N) :=
+  match k with
+  | O => [[]]
+  | S k' => [] :: flat_map (fun w => map (fun a => a :: w) syms) (words_upto syms k')
+  end.
+Definition judge_re {Q} `{EqDec Q} `{Canon Q} (A : enfa Q) (r : re) (limit k : nat) : verdict :=
+  if Nat.leb (re_size r) limit then judge A (renumber (re_fa r))
+  else match find (fun w => negb (Bool.eqb (accepts A w) (re_matches r w))) (dedup (words_upto (dedup (labels A)) k)) with
+       | Some w => VDiff (Some w)
+       | None => VEqBounded k
+       end.
